@@ -1,7 +1,7 @@
 (* C04 — the statements of props/C04.v assembled from the other proof files. *)
 From verif Require Import lib.Base lib.Utf8 model.C03 proofs.C03_proofs model.C08_Value
   proofs.C08_Value_proofs model.C04 proofs.C04_proofs proofs.C04_text proofs.C04_roundtrip
-  proofs.C04_sem proofs.C04_order.
+  proofs.C04_sem proofs.C04_order proofs.C04_fuel.
 From verif Require model.C05 proofs.C05_float_proofs.
 Open Scope N_scope.
 
@@ -45,6 +45,15 @@ Proof.
   split; [apply (norm_num_type pf rk (C05_float_proofs.S2_nan _ _ _ HS))|].
   pose proof (norm_keeps_number pf rk (C05_float_proofs.S2_nan _ _ _ HS) v Hok) as K.
   destruct v; try exact I; exact K.
+Qed.
+
+(* the function the judge runs on the whole argument of put *)
+Theorem read_expr_roundtrip v ind : okv v = true -> wfv v ->
+  exists v', read_expr is_print pf (repr is_print fmtF fmtE rk v ind) = EVal v' /\ eqn v v' = true.
+Proof.
+  intros Hok W. exists (norm pf rk v). split.
+  - apply read_expr_repr; assumption.
+  - apply (norm_good pf rk (C05_float_proofs.S2_nan _ _ _ HS) v Hok W).
 Qed.
 
 (* what the model predicts for the implementation passes the oracle *)
